@@ -68,7 +68,7 @@ func hwDecodeProvider(m map[string]interface{}, yamlShape bool) (core.Provider, 
 // under heavy load cannot turn an exchange into a spurious failure (loopback only; nothing waits for them).
 func hwPatient(m map[string]interface{}) {
 	switch m["type"] {
-	case "http", "http/scenario", "connect":
+	case "http", "http2", "http/scenario", "connect":
 		if _, ok := m["tls-handshake-timeout"]; !ok {
 			m["tls-handshake-timeout"] = "120s"
 		}
